@@ -31,7 +31,7 @@ ASSUMPTIONS = [
     "fake job processes (engine) create the job directories the way the task runner would (markers only)",
     "a second process that blocks or raises when entering a held experiment is accepted either way",
 ]
-MIN_CLASSES = {"quick": {"end:normal": 300, "end:exception": 200, "aborted-then-run": 150, "end:kill": 8, "second-process": 8}, "thorough": {"end:kill": 150}}
+MIN_CLASSES = {"quick": {"end:normal": 300, "end:exception": 200, "escapes:KeyboardInterrupt": 60, "escapes:SystemExit": 60, "aborted-then-run": 150, "end:kill": 8, "second-process": 8}, "thorough": {"end:kill": 150}}
 NJOBS = 6
 
 
@@ -45,6 +45,10 @@ def cases(ctx):
             jobs = draw(st.lists(st.integers(0, NJOBS - 1), min_size=0, max_size=NJOBS, unique=True))
             end = draw(st.sampled_from(["normal", "normal", "exception"] + (["kill"] if allow_kill else [])))
             run = {"jobs": sorted(jobs), "end": end, "sched": draw(st.lists(st.integers(0, 5), max_size=12))}
+            if end == "exception":
+                # what escapes the block: an ordinary error, or an interruption (Ctrl-C, sys.exit) that is
+                # not an `Exception` (seeded change C16-e: the backup index was dropped for those)
+                run["exc"] = draw(st.sampled_from(["RuntimeError", "KeyboardInterrupt", "SystemExit"]))
             if end == "kill":
                 run["kill_at"] = draw(st.sampled_from(["enter-move", "after-submits", "before-exit"]))
                 run["kill_k"] = draw(st.integers(0, 4))
@@ -56,7 +60,7 @@ def cases(ctx):
 
 def engine_case(case, run):
     jobs = [{"cls": 0, "ups": [], "toks": [], "code": 1 if j in case["fail"] else 0} for j in range(NJOBS)]
-    return {"tokens": [], "jobs": jobs, "plan": [["submit", j] for j in run["jobs"]], "sched": run["sched"]}
+    return {"tokens": [], "jobs": jobs, "plan": [["submit", j] for j in run["jobs"]], "sched": run["sched"], "exit_exc": run.get("exc")}
 
 
 KILL_SRC = r'''
@@ -165,6 +169,8 @@ def prop(ctx, case):
     try:
         for index, run in enumerate(case["runs"]):
             labels.add(f"end:{run['end']}")
+            if run.get("exc"):
+                labels.add(f"escapes:{run['exc']}")
             if prev_aborted:
                 labels.add("aborted-then-run")
                 if (set(run["jobs"]) & submitted_before) if index else False:
